@@ -30,6 +30,15 @@ for _body, _msg in RETHROW:
                    "want": _msg, "why": "a re-thrown error crosses a function boundary and an outer handler unchanged"})
 EXPECT.append({"src": "e = nil; try { throw \"first\" } catch a { e = a }; r = 0; try { throw e } catch b { r = 1 }; r", "field": "result", "want": "i:1",
                "why": "throwing a stored error value raises an error"})
+# throw of a caught value always raises: also when the catch variable holds the signal of a return / break / continue that the
+# try body was left by (see the C08 known finding); the alternative accepted is the behaviour without that finding
+for _src, _alt in (("func f() { try { return 7 } catch q { throw q } }; r = \"E\"; try { r = f() } catch e { }; r", "i:7"),
+                   ("r = []; try { for i in [1, 2] { try { break } catch q { throw q }; r += i } } catch e { r += \"E\" }; r", "[]"),
+                   ("r = []; try { for i in [1, 2] { try { continue } catch q { throw q }; r += i } } catch e { r += \"E\" }; r", "[]"),
+                   ("r = \"none\"; try { try { return 7 } catch q { throw q } } catch e { r = \"E\" }; r", "i:7")):
+    EXPECT.append({"src": _src, "field": "result", "want": "s:45" if _src.startswith(("func", "r = \"none")) else "[s:45]", "want_any": [_alt],
+                   "why": "throw of the catch variable raises an error, whatever the try body was left by"})
+
 # a deferred Go function that panics is one failing deferred call: the defers registered before it still run, and an error of the body wins
 EXPECT += [
     {"src": "func f() { defer probe(1); defer hpanic(2); probe(0) }\ntry { f() } catch e { probe(9) }", "field": "trace", "want": "(i:0);(i:1);(i:9)",
